@@ -526,7 +526,12 @@ Section Cfg.
   Inductive objroute := RSet | RAppend | RSetIdx (i : nat) | RInsert (i : Z).
   Inductive xop :=
   | XOp (o : cop)
-  | XObj (r : objroute) (k : str) (sdyn : bool) (svs : list N) (sfs : list (str * node)) (dops : list (list pstep * cop)).
+  | XObj (r : objroute) (k : str) (sdyn : bool) (svs : list N) (sfs : list (str * node)) (dops : list (list pstep * cop))
+  (* the object built by the latest XObj that was NOT taken (refused, or never offered because the walk failed): the caller
+     still holds it, may apply further operations to it through its own reference (dops) and offers it again.  An object
+     that was taken lives in the tree from then on (the same operation addressed below its slot); offering it a second
+     time would put one object in two places, which this model does not cover: Unmodelled. *)
+  | XAgain (r : objroute) (k : str) (dops : list (list pstep * cop)).
 
   Fixpoint run_detached (dops : list (list pstep * cop)) (w : world) (c : cfg) (sdyn : bool) (svs : list N)
            (sfs : list (str * node)) : world * cfg :=
@@ -544,14 +549,41 @@ Section Cfg.
     | RSetIdx i => CSetIdxObj k i src
     | RInsert i => CInsertObj k i src
     end.
-  Definition resolve (w : world) (x : xop) : world * cop :=
+  (* stateless reading (no object kept from earlier steps: XAgain has nothing to offer) *)
+  Definition resolve (w : world) (x : xop) : world * option cop :=
     match x with
-    | XOp o => (w, o)
-    | XObj r k sdyn svs sfs dops => let '(w1, src) := detached w sdyn svs sfs dops in (w1, obj_cop r k src)
+    | XOp o => (w, Some o)
+    | XObj r k sdyn svs sfs dops => let '(w1, src) := detached w sdyn svs sfs dops in (w1, Some (obj_cop r k src))
+    | XAgain _ _ _ => (w, None)
     end.
   Definition at_path_x (ps : list pstep) (w : world) (pre : str) (c : cfg) (dynamic : bool) (vs : list N)
              (fs : list (str * node)) (x : xop) : world * cfg * oc :=
-    let '(w1, o) := resolve w x in at_path ps w1 pre c dynamic vs fs o.
+    match resolve w x with
+    | (w1, Some o) => at_path ps w1 pre c dynamic vs fs o
+    | (w1, None) => (w1, c, OUnm)
+    end.
+
+  (* histories: the object the caller still holds (with the schema it was built from) is threaded from step to step *)
+  Definition kept := option (cfg * (bool * list N * list (str * node)))%type.
+  Definition keep_if_refused (o : oc) (src : cfg) (sch : bool * list N * list (str * node)) : kept :=
+    match o with OOk => None | _ => Some (src, sch) end.
+  Definition at_path_xs (ps : list pstep) (w : world) (last : kept) (pre : str) (c : cfg) (dynamic : bool) (vs : list N)
+             (fs : list (str * node)) (x : xop) : world * kept * cfg * oc :=
+    match x with
+    | XOp o => let '(w1, c1, o1) := at_path ps w pre c dynamic vs fs o in (w1, last, c1, o1)
+    | XObj r k sdyn svs sfs dops =>
+        let '(w1, src) := detached w sdyn svs sfs dops in
+        let '(w2, c1, o1) := at_path ps w1 pre c dynamic vs fs (obj_cop r k src) in
+        (w2, keep_if_refused o1 src (sdyn, svs, sfs), c1, o1)
+    | XAgain r k dops =>
+        match last with
+        | Some (src0, (sdyn, svs, sfs)) =>
+            let '(w1, src) := run_detached dops w src0 sdyn svs sfs in
+            let '(w2, c1, o1) := at_path ps w1 pre c dynamic vs fs (obj_cop r k src) in
+            (w2, keep_if_refused o1 src (sdyn, svs, sfs), c1, o1)
+        | None => (w, None, c, OUnm)
+        end
+    end.
 
   (* ---- to_tree(virtual=False, sensitive_mask) ---- *)
   Fixpoint repeat_str (m : str) (n : nat) : str := match n with O => [] | S n' => m ++ repeat_str m n' end.
@@ -677,3 +709,4 @@ Arguments NSub {F} dyn vals fields.
 Arguments NCfgList {F} required vals fields.
 Arguments XOp {F} o.
 Arguments XObj {F} r k sdyn svs sfs dops.
+Arguments XAgain {F} r k dops.
